@@ -1,0 +1,138 @@
+//go:build verif
+
+package rpc
+
+// Contracts for the deductive checks in /verif (read by /verif/govc; comment-only, no code).
+
+//@ import types github.com/tendermint/tendermint/types
+//@ import ctypes github.com/tendermint/tendermint/rpc/core/types
+//@ import rpcclient github.com/tendermint/tendermint/rpc/client
+//@ import merkle github.com/tendermint/tendermint/crypto/merkle
+
+// What the light client vouches for. vhdr(h): h is the hash of a header the light client handed out (C09: a reached,
+// stored header; the hash determines the header). vdata / vlastres / vapp / vcons: the value is that header's DataHash /
+// LastResultsHash / AppHash / ConsensusHash. They are defined by the LightClient contracts below and nowhere else.
+//@ spec func vhdr(h []byte) bool
+//@ spec func vdata(h []byte, height int64) bool
+//@ spec func vlastres(h []byte, height int64) bool
+//@ spec func vapp(h []byte, height int64) bool
+//@ spec func vcons(h []byte, height int64) bool
+//@ spec func vouched(l *types.LightBlock) bool = l != nil && l.SignedHeader != nil && l.SignedHeader.Header != nil && l.ValidatorSet != nil &&
+//@   | vhdr(types.Header.Hash(l.SignedHeader.Header)) && vdata(l.SignedHeader.Header.DataHash, l.SignedHeader.Header.Height) &&
+//@   | vlastres(l.SignedHeader.Header.LastResultsHash, l.SignedHeader.Header.Height) && vapp(l.SignedHeader.Header.AppHash, l.SignedHeader.Header.Height) &&
+//@   | vcons(l.SignedHeader.Header.ConsensusHash, l.SignedHeader.Header.Height)
+
+//@ extern LightClient.VerifyLightBlockAtHeight
+//@   assigns nothing
+//@   ensures ok: result1 == nil ==> (vouched(result0) && result0.SignedHeader.Header.Height == arg1)
+// Update returns (nil, nil) when there is nothing newer than the latest trusted block.
+//@ extern LightClient.Update
+//@   assigns nothing
+//@   ensures ok: (result1 == nil && result0 != nil) ==> vouched(result0)
+//@ extern LightClient.TrustedLightBlock
+//@   assigns nothing
+//@   ensures ok: result0 == nil ==> result1 != nil
+//@   ensures ok2: result1 == nil ==> (vouched(result0) && (arg0 != 0 ==> result0.SignedHeader.Header.Height == arg0))
+
+//@ extern rpcclient.Client.Block
+//@   assigns nothing
+//@ extern rpcclient.Client.BlockByHash
+//@   assigns nothing
+//@ extern rpcclient.Client.BlockSearch
+//@   assigns nothing
+//@ extern rpcclient.Client.BlockResults
+//@   assigns nothing
+//@ extern rpcclient.Client.Status
+//@   assigns nothing
+//@ extern rpcclient.Client.Tx
+//@   assigns nothing
+//@ extern rpcclient.Client.TxSearch
+//@   assigns nothing
+//@ extern rpcclient.Client.ConsensusParams
+//@   assigns nothing
+//@ extern rpcclient.Client.BlockchainInfo
+//@   assigns nothing
+//@ extern rpcclient.Client.ABCIQueryWithOptions
+//@   assigns nothing
+
+// A light block comes back only from the light client; never nil without an error.
+//@ func Client.updateLightClientIfNeededTo
+//@   assigns nothing
+//@   ensures ok: result1 == nil ==> (vouched(result0) && (height != nil ==> result0.SignedHeader.Header.Height == old(*height)))
+
+// A block is relayed only if it is internally consistent (its id and its data/commit/evidence hashes) and its hash is
+// the hash of the light-verified header at its height.
+//@ func Client.verifyBlock
+//@   assigns res.Block.LastCommit.hash, res.Block.Data.hash, res.Block.Evidence.hash, lastBasicOK
+//@   ensures bound: result == nil ==> (res != nil && res.Block != nil && vhdr(types.Block.Hash(res.Block)) && res.BlockID.Hash == types.Block.Hash(res.Block) &&
+//@     | res.Block.Header.DataHash == types.Data.Hash(&res.Block.Data))
+//@ func Client.Block
+//@   ensures bound: result1 == nil ==> (result0 != nil && result0.Block != nil && vhdr(types.Block.Hash(result0.Block)) && result0.BlockID.Hash == types.Block.Hash(result0.Block))
+//@ func Client.BlockByHash
+//@   ensures bound: result1 == nil ==> (result0 != nil && result0.Block != nil && vhdr(types.Block.Hash(result0.Block)) && result0.BlockID.Hash == types.Block.Hash(result0.Block))
+//@ func Client.BlockSearch
+//@   ensures bound: result1 == nil ==> forall(i, 0, len(result0.Blocks), vhdr(types.Block.Hash(result0.Blocks[i].Block)))
+//@   loop 1 invariant idx: 0 <= rangeindex + 1 && rangeindex + 1 <= len(res.Blocks)
+//@   loop 1 invariant done: forall(i, 0, rangeindex + 1, vhdr(types.Block.Hash(res.Blocks[i].Block)))
+
+// Block results are relayed only if their hash is the LastResultsHash of the light-verified header one above.
+//@ func Client.BlockResults
+//@   ensures bound: result1 == nil ==> vlastres(types.ABCIResults.Hash(types.NewResults(result0.TxsResults)), h + 1)
+
+// The commit relayed is the light client's own signed header.
+//@ func Client.Commit
+//@   checks nil
+//@   ensures bound: result1 == nil ==> vhdr(types.Header.Hash(result0.SignedHeader.Header))
+
+// A proven transaction is relayed only if the proof is for exactly the returned bytes, leads to the data hash of the
+// light-verified header at its height, and (Tx) the bytes hash to what was asked for.
+//@ func Client.verifyTxProof
+//@   ensures bound: result == nil ==> (vdata(res.Proof.RootHash, res.Height) && res.Proof.Data == res.Tx &&
+//@     | res.Proof.RootHash == pathRoot(res.Proof.Proof.Index, res.Proof.Proof.Total, leafH(tmhashSum(res.Tx)), res.Proof.Proof.Aunts))
+//@ func Client.Tx
+//@   ensures bound: (result1 == nil && prove) ==> (vdata(result0.Proof.RootHash, result0.Height) && result0.Proof.Data == result0.Tx && tmhashSum(result0.Tx) == hash &&
+//@     | result0.Proof.RootHash == pathRoot(result0.Proof.Proof.Index, result0.Proof.Proof.Total, leafH(tmhashSum(result0.Tx)), result0.Proof.Proof.Aunts))
+//@ func Client.TxSearch
+//@   ensures bound: (result1 == nil && prove) ==> forall(i, 0, len(result0.Txs), vdata(result0.Txs[i].Proof.RootHash, result0.Txs[i].Height) && result0.Txs[i].Proof.Data == result0.Txs[i].Tx)
+//@   loop 1 invariant idx: 0 <= rangeindex + 1 && rangeindex + 1 <= len(res.Txs)
+//@   loop 1 invariant done: forall(i, 0, rangeindex + 1, vdata(res.Txs[i].Proof.RootHash, res.Txs[i].Height) && res.Txs[i].Proof.Data == res.Txs[i].Tx)
+
+// Validators are a page of the light-verified validator set.
+//@ func Client.Validators
+//@   checks nil
+//@   checks bounds
+//@   ensures bound: result1 == nil ==> (vouched(l) && result0.BlockHeight == l.SignedHeader.Header.Height && result0.Total == len(l.ValidatorSet.Validators) && result0.Count == len(result0.Validators) &&
+//@     | forall(i, 0, len(result0.Validators), result0.Validators[i] == l.ValidatorSet.Validators[(page - 1) * perPage + i]))
+//@   ensures page: result1 == nil ==> (page >= 1 && (page - 1) * perPage <= result0.Total &&
+//@     | result0.Count == ite(perPage < result0.Total - (page - 1) * perPage, perPage, result0.Total - (page - 1) * perPage))
+
+// Every block meta relayed carries a header whose hash is a light-verified header's hash.
+//@ func Client.BlockchainInfo
+//@   ensures bound: result1 == nil ==> forall(i, 0, len(result0.BlockMetas), vhdr(types.Header.Hash(&result0.BlockMetas[i].Header)))
+//@   loop 1 invariant idx: 0 <= rangeindex + 1 && rangeindex + 1 <= len(res.BlockMetas)
+//@   loop 2 invariant idx: 0 <= rangeindex + 1 && rangeindex + 1 <= len(res.BlockMetas)
+//@   loop 2 invariant done: forall(i, 0, rangeindex + 1, vhdr(types.Header.Hash(&res.BlockMetas[i].Header)))
+
+// ASSUMED: the configured key-path builder only computes a path.
+//@ extern Client.keyPathFn
+//@   assigns nothing
+
+// A proven application query is relayed only if its proof operators lead from the value (or its absence) to the
+// AppHash of the light-verified header one above the height the node answered for.
+//@ func Client.ABCIQueryWithOptions
+//@   ensures bound: result1 == nil ==> (vapp(l.SignedHeader.Header.AppHash, resp.Height + 1) && result0.Response.Value == resp.Value && result0.Response.Key == resp.Key &&
+//@     | (resp.Value != nil ==> provesValue(resp.ProofOps, l.SignedHeader.Header.AppHash, merkle.KeyPath.String(kp), resp.Value)) &&
+//@     | (resp.Value == nil ==> provesAbsence(resp.ProofOps, l.SignedHeader.Header.AppHash, string(resp.Key))))
+
+//@ func Client.ConsensusParams
+//@   ensures bound: result1 == nil ==> vcons(types.HashConsensusParams(result0.ConsensusParams), result0.BlockHeight)
+
+//@ func validatePerPage
+//@   assigns nothing
+//@   ensures range: 1 <= result && result <= 100
+//@ func validatePage
+//@   assigns nothing
+//@   ensures range: result1 == nil ==> (1 <= result0 && (result0 - 1) * perPage < totalCount || result0 == 1)
+//@ func validateSkipCount
+//@   assigns nothing
+//@   ensures def: result == ite((page - 1) * perPage < 0, 0, (page - 1) * perPage)
